@@ -474,9 +474,8 @@ def cnfHelper : Nat → St → List Ptr → Option (St × Option Ptr)
           | none => none
           | some (st3, z) => some (st3, some z)
 
-/-- `compile_cnf` on the clause list *as ordered by the Rust's* `sort_by` (the comparator is not
-a total order, the resulting order is an implementation detail of the standard library; the
-correctness theorem is for every order) -/
+/-- `compile_cnf` after the clause sort: empty CNF, empty clause, the clause loop, the balanced
+conjunction.  (The correctness theorem is for every clause order.) -/
 def compileCnf (st : St) (cnf : Cnf) : Option (St × Ptr) :=
   if cnf.isEmpty then some (st, .tru)
   else if cnf.any (·.isEmpty) then some (st, .fls)
@@ -490,6 +489,33 @@ def compileCnf (st : St) (cnf : Cnf) : Option (St × Ptr) :=
       | some (st2, some x) => some (st2, x)
 
 end ops
+
+/-! ## the clause sort of `compile_cnf`
+
+`cnf_sorted.sort_by(|c1, c2| if is_prime_var(fst1, fst2) { Less } else { Equal })` where
+`fstᵢ = cᵢ.iter().max_by(|l1, l2| if is_prime_var(l1, l2) { Less } else { Equal })`.
+`Iterator::max_by` keeps the later element unless the comparison says `Greater`, which this
+comparator never does: `fstᵢ` is the LAST literal of the clause.  `sort_by` only ever asks whether
+the comparison is `Less`, i.e. whether `var_index(fst1) < var_index(fst2)`, and is stable: the
+clauses are stably sorted by the vtree index of their last literal's variable. -/
+
+def clauseKey (vt : VTree) (c : Clause) : Nat :=
+  match c.getLast? with
+  | some l => (vt.varIndex? 0 l.var).getD 0
+  | none => 0
+
+/-- insertion in front of the first clause whose key is not smaller (stable) -/
+def insertClause (vt : VTree) (c : Clause) : List Clause → List Clause
+  | [] => [c]
+  | d :: ds => if clauseKey vt d < clauseKey vt c then d :: insertClause vt c ds else c :: d :: ds
+
+def sortClauses (vt : VTree) : List Clause → List Clause
+  | [] => []
+  | c :: cs => insertClause vt c (sortClauses vt cs)
+
+/-- `compile_cnf` -/
+def compileCnfSorted (π : Params) (fuel : Nat) (st : St) (cnf : Cnf) : Option (St × Ptr) :=
+  compileCnf π fuel st (sortClauses π.vt cnf)
 
 /-! ## the operation language (that of C03; `ite`, `xor`, `iff`, `compose` are `todo!()`) -/
 
@@ -546,7 +572,7 @@ def runChecked (vt : VTree) (P : Nat) (weights : List (Nat × Nat)) (fuel : Nat)
 /-- `compile_cnf` from a fresh builder -/
 def runCnf (vt : VTree) (P : Nat) (weights : List (Nat × Nat)) (chk : Bool) (fuel : Nat) (cnf : Cnf) :
     Option Ptr :=
-  (compileCnf (params vt P weights chk) fuel St.init cnf).map (·.2)
+  (compileCnfSorted (params vt P weights chk) fuel St.init cnf).map (·.2)
 
 /-- `sdd_eq` on two results -/
 def sddEq (_vt : VTree) (P : Nat) (weights : List (Nat × Nat)) (a b : Ptr) : Bool :=
